@@ -25,11 +25,15 @@ ASSUMPTIONS = ["tag universe of 8 tags: wildcard extent and case-sensitivity are
 UNIVERSE = ("a", "b", "c", "a.b", "x-1", "k=v", "ab", "A")
 SUBSETS = [tuple(t for i, t in enumerate(UNIVERSE) if m >> i & 1) for m in range(256)]
 SUBSET_LISTS = [list(s) for s in SUBSETS]
-OPS_QUICK = ("a", "b", "a.b", "k=v", "a*", "?b", "*")
+OPS_QUICK = ("a", "b", "a.b", "a*", "*", "[!a]", "[ab]*")
 # "a*a" / "ab*b": single-star patterns whose prefix and suffix overlap inside a shorter tag ("a", "ab") - a
 # startswith/endswith shortcut without a length test answers them wrongly
 # "*" / "?" / "**": the pattern consisting of the wildcard alone (matches any tag - but NOT the empty tag set)
-OPS_FULL = ("a", "b", "c", "a.b", "x-1", "k=v", "a*", "?b", "[ab]c", "*.b", "a*a", "ab*b", "*", "?", "**")
+# "[ab]" / "a[b]" / "[!a]": the character class is the ONLY wildcard of the pattern (and it matches tags of the universe:
+# "[ab]c" matches none of them, so a reading as literal goes unnoticed there); "[ab]*" / "a?*" / "*.[b]" / "?*": ONE
+# leading or trailing star combined with the other wildcard kinds (a startswith/endswith shortcut is wrong there)
+OPS_FULL = ("a", "b", "c", "a.b", "x-1", "k=v", "a*", "?b", "[ab]c", "*.b", "a*a", "ab*b", "*", "?", "**",
+            "[ab]", "a[b]", "[!a]", "[ab]*", "a?*", "*.[b]", "?*")
 OPS_4 = ("a", "b", "x-1", "a*")
 
 
